@@ -203,8 +203,12 @@ class Gen:
 
     def __init__(self, rng, vars_num=("a", "b", "c"), vars_bool=(), consts=(0, 1, 2, -1, 3),
                  funcs=("<func>f", "<func>g"), ops=None, arrays=(), kwnames=("k", "m"),
-                 float_consts=()):
+                 float_consts=(), literal_exponents=False):
         self.rng = rng
+        # programs that are EXECUTED over several steps: a power whose exponent is a run-time value can tower
+        # (acc <- acc + acc**acc in a loop is 3, 30, 30**30, ... on a path where acc is the concrete 3) and the real
+        # evaluator would compute it on concrete integers; such generators use small literal exponents only
+        self.literal_exponents = literal_exponents
         self.vars_num = list(vars_num)
         self.vars_bool = list(vars_bool)
         self.consts = list(consts)
@@ -236,7 +240,14 @@ class Gen:
             n = self.rng.choice([2, 2, 3])
             return [o] + [self.num(depth - 1) for _ in range(n)]
         if o in ("/", "**", "//", "%"):
-            return [o, self.num(depth - 1), self.num(depth - 1)]
+            a, b = self.num(depth - 1), self.num(depth - 1)
+            if o == "**" and self.literal_exponents:
+                b = ["c", self.rng.choice([0, 1, 2, 2, 3])]
+            if o == "**" and b[0] not in ("v", "c") and not any(sub[0] == "v" for _, sub in subterms(b)):
+                # an exponent that is a compound constant expression makes a tower like 3**(3**(3**3)), which the real
+                # evaluator would compute on concrete integers (7.6e12 digits): keep constant exponents to one literal
+                b = self.leaf_num()
+            return [o, a, b]
         if o == "if":
             return ["if", self.boolean(depth - 1), self.num(depth - 1), self.num(depth - 1)]
         if o in ("min", "max"):
